@@ -10,6 +10,7 @@ import (
 	"math/rand"
 	"sync"
 	"testing"
+	"time"
 
 	"github.com/projecteru2/core/resource/cobalt"
 	"github.com/projecteru2/core/resource/plugins"
@@ -260,6 +261,9 @@ type bkOp struct {
 	// SecondFails: the operation runs on a manager with two plugins and the second plugin's usage write fails, i.e.
 	// the commit fails after cpumem has written: the operation must fail and cobalt must restore cpumem's usage
 	SecondFails bool `json:"second_plugin_commit_fails,omitempty"`
+	// CallerGone: ... and the caller's context is cancelled at the moment the second plugin refuses (the undoing of
+	// what the first plugin wrote must not depend on the caller still being there)
+	CallerGone bool `json:"caller_context_cancelled_when_the_commit_fails,omitempty"`
 }
 
 type bkHistory struct {
@@ -374,13 +378,34 @@ func TestC08(t *testing.T) {
 			}
 			desc := fmt.Sprintf("step %d %s", step, op.Kind)
 			rec.Count("ops/"+op.Kind, 1)
+			octx := ctx // the context of the (real) manager calls of this step; ctx stays the harness's own
 			if op.SecondFails {
 				desc += " (commit fails in the second plugin)"
 				slots.FailNextUsageWrites(1)
+				slots.OnFailedUsageWrite = nil
+				if op.CallerGone {
+					desc += " and the caller's context is cancelled at that moment"
+					cctx, cancel := context.WithCancel(ctx)
+					defer cancel()
+					octx = cctx
+					slots.OnFailedUsageWrite = func() {
+						// the plugins commit side by side: wait until the first plugin's write is in (its record differs from
+						// the one read before the step), so that there is something to undo, then the caller goes away
+						for i := 0; i < 150; i++ {
+							if now, err := readInfo(pl, node); err == nil && usageEqual(now, before) != "" {
+								rec.Count("failed_commits_with_the_caller_gone_after_the_first_plugin_wrote", 1)
+								break
+							}
+							time.Sleep(2 * time.Millisecond)
+						}
+						cancel()
+						rec.Count("failed_commits_with_the_caller_gone", 1)
+					}
+				}
 			}
 			switch op.Kind {
 			case "alloc", "rollback-alloc":
-				wr, _, err := m.Alloc(ctx, node, op.Count, resOf(op.Req))
+				wr, _, err := m.Alloc(octx, node, op.Count, resOf(op.Req))
 				if err != nil {
 					rec.Count("refused/"+op.Kind, 1)
 					if op.SecondFails {
@@ -415,7 +440,7 @@ func TestC08(t *testing.T) {
 					break
 				}
 				idx := op.Pick % len(live)
-				_, delta, newRes, err := m.Realloc(ctx, node, live[idx].res, resOf(op.Req))
+				_, delta, newRes, err := m.Realloc(octx, node, live[idx].res, resOf(op.Req))
 				if err != nil {
 					rec.Count("refused/"+op.Kind, 1)
 					if op.SecondFails {
@@ -451,7 +476,7 @@ func TestC08(t *testing.T) {
 					break
 				}
 				idx := op.Pick % len(live)
-				if _, _, err := m.SetNodeResourceUsage(ctx, node, nil, nil, []resourcetypes.Resources{live[idx].res}, true, plugins.Decr); err != nil {
+				if _, _, err := m.SetNodeResourceUsage(octx, node, nil, nil, []resourcetypes.Resources{live[idx].res}, true, plugins.Decr); err != nil {
 					if op.SecondFails {
 						nontrivial = true
 						rec.Count("failed_commits/release", 1)
@@ -467,6 +492,7 @@ func TestC08(t *testing.T) {
 			}
 			if slots != nil {
 				slots.FailNextUsageWrites(0) // the operation may have been refused before its commit
+				slots.OnFailedUsageWrite = nil
 			}
 			// conservation after every step
 			cpu, cpuMap, mem, numa, perr := sumLive(live)
@@ -584,6 +610,7 @@ func genBkHistory(r *rand.Rand, env *vkit.Env) *bkHistory {
 		for i := range h.Ops {
 			if k := h.Ops[i].Kind; (k == "alloc" || k == "realloc" || k == "release") && r.Intn(4) == 0 {
 				h.Ops[i].SecondFails = true
+				h.Ops[i].CallerGone = r.Intn(2) == 0
 			}
 		}
 	}
